@@ -334,6 +334,86 @@ theorem replace_tail_eq (x : XExpr) (t : Name) (a : List (Name × Str)) :
   · rintro ⟨m, h⟩; exact ⟨m, h⟩
   · rintro ⟨m, h⟩; exact ⟨m, h⟩
 
+/-! one-directional version of the congruence (for refinements that are not equivalences) -/
+
+def TailImp (ds : List Dir) (body : List CEv) (ds' : List Dir) (body' : List CEv) : Prop :=
+  ∀ st o st', IOk (.apply ds body) st o st' → IOk (.apply ds' body') st o st'
+
+theorem loop_imp {ds body ds' body'} (h : TailImp ds body ds' body') (v : Name) :
+    ∀ items st o st', IOk (.loop v items ds body) st o st' → IOk (.loop v items ds' body') st o st' := by
+  intro items
+  induction items with
+  | nil => intro st o st'; rw [IOk.loop_nil_iff, IOk.loop_nil_iff]; exact id
+  | cons item items ih =>
+    intro st o st'
+    rw [IOk.loop_cons_iff, IOk.loop_cons_iff]
+    rintro ⟨o1, s1, o2, h1, h2, rfl⟩
+    exact ⟨o1, s1, o2, h _ _ _ h1, ih _ _ _ h2, rfl⟩
+
+theorem binds_imp {ds body ds' body'} (h : TailImp ds body ds' body') :
+    ∀ bs st o st', IOk (.binds bs ds body) st o st' → IOk (.binds bs ds' body') st o st' := by
+  intro bs
+  induction bs with
+  | nil => intro st o st'; rw [IOk.binds_nil_iff, IOk.binds_nil_iff]; exact h _ _ _
+  | cons p bs ih =>
+    obtain ⟨x, e⟩ := p
+    intro st o st'
+    rw [IOk.binds_cons_iff, IOk.binds_cons_iff]
+    rintro ⟨v, hv, h1⟩
+    exact ⟨v, hv, ih _ _ _ h1⟩
+
+theorem apply_cons_imp {ds body ds' body'} (d : Dir) (hd : d.ctl = true)
+    (h : TailImp ds body ds' body') : TailImp (d :: ds) body (d :: ds') body' := by
+  intro st o st'
+  cases d <;> simp [Dir.ctl] at hd
+  · rw [IOk.when_iff, IOk.when_iff]
+    rintro ⟨c, cs, hc, hh⟩
+    refine ⟨c, cs, hc, ?_⟩
+    rcases hh with hh | ⟨hm, m, hmm, ⟨rfl, h1⟩ | hh⟩
+    · exact Or.inl hh
+    · exact Or.inr ⟨hm, true, hmm, Or.inl ⟨rfl, h _ _ _ h1⟩⟩
+    · exact Or.inr ⟨hm, m, hmm, Or.inr hh⟩
+  · rw [IOk.otherwise_iff, IOk.otherwise_iff]
+    rintro ⟨c, cs, hc, hh | ⟨hm, h1⟩⟩
+    · exact ⟨c, cs, hc, Or.inl hh⟩
+    · exact ⟨c, cs, hc, Or.inr ⟨hm, h _ _ _ h1⟩⟩
+  · rw [IOk.for_iff, IOk.for_iff]
+    rintro ⟨it, items, h1, h2, h3⟩
+    exact ⟨it, items, h1, h2, loop_imp h _ _ _ _ _ h3⟩
+  · rw [IOk.if_iff, IOk.if_iff]
+    rintro ⟨v, hv, ⟨ht, h1⟩ | hh⟩
+    · exact ⟨v, hv, Or.inl ⟨ht, h _ _ _ h1⟩⟩
+    · exact ⟨v, hv, Or.inr hh⟩
+  · rw [IOk.choose_iff, IOk.choose_iff]
+    rintro ⟨v, s1, hv, h1, rfl⟩
+    exact ⟨v, s1, hv, h _ _ _ h1, rfl⟩
+  · rw [IOk.with_iff, IOk.with_iff]
+    rintro ⟨s1, h1, rfl⟩
+    exact ⟨s1, binds_imp h _ _ _ _ h1, rfl⟩
+
+theorem apply_prefix_imp {ds body ds' body'} (pre : List Dir) (hpre : ∀ d ∈ pre, d.ctl = true)
+    (h : TailImp ds body ds' body') : TailImp (pre ++ ds) body (pre ++ ds') body' := by
+  induction pre with
+  | nil => simpa using h
+  | cons d pre ih =>
+    simp only [List.cons_append]
+    exact apply_cons_imp d (hpre d (List.mem_cons_self ..))
+      (ih (fun x hx => hpre x (List.mem_cons_of_mem _ hx)))
+
+/-- with `py:attrs` on the element: content + strip evaluates it (and may fail there), replace
+    does not — whenever content + strip renders, replace renders the same -/
+theorem replace_attrs_tail_imp (x : XExpr) (e : Expr) (t : Name) (a : List (Name × Str)) :
+    TailImp [.attrs e, .strip none] [.start t a, .xexpr x, .end_ t] [.attrs e] [.xexpr x] := by
+  intro st o st' h
+  rw [IOk.succ] at h
+  obtain ⟨m, h⟩ := h
+  simp only [run, attrsHead, bind_ok, pure, Except.pure, Except.ok.injEq] at h
+  obtain ⟨b, ⟨v, _, ps, _, rfl⟩, b', hb', h2⟩ := h
+  simp only [stripBody, stripCond, bind, Except.bind, pure, Except.pure, if_true, List.dropLast,
+    Except.ok.injEq] at hb'
+  subst hb'
+  exact ⟨m + 1, by simp [run, attrsHead, h2, bind, Except.bind]⟩
+
 /-! ### a loop = its unrolling with py:with -/
 
 /-- the unrolled loop: one SUB per item that binds the loop variable with `py:with` -/
